@@ -53,6 +53,10 @@ type Cfg struct {
 	// LazyTimers: virtual time passes (back-off and 1 s retry sleeps end) only when no other move is enabled,
 	// i.e. timers are slower than every message and every local step.  A restriction of the schedule space.
 	LazyTimers bool `json:"lazy_timers,omitempty"`
+	// SplitReceive (direct transport): a replica handles a request in the two critical sections receiveFiltered
+	// really has - the stale-message filter, then receiveInternal - as two scheduler steps, so that the
+	// requests of two concurrent Receive calls interleave between them.
+	SplitReceive bool `json:"split_receive,omitempty"`
 }
 
 func (c *Cfg) name() string {
@@ -76,6 +80,9 @@ func (c *Cfg) name() string {
 	}
 	if c.LazyTimers {
 		at += "/lazy-timers"
+	}
+	if c.SplitReceive {
+		at += "/split-receive"
 	}
 	if c.Budget > 0 && len(c.Faults) == 1 {
 		at += "/only-" + c.Faults[0]
@@ -108,7 +115,7 @@ type msg struct {
 	req      resources.TwoPCRequest
 	reply    *resources.TwoPCResponse
 	ch       chan error
-	stage    int // 0 request in flight, 1 processed (or lost), reply in flight
+	stage    int // 0 request in flight, 5 passed the receiver's filter (SplitReceive), 1 processed (or lost), reply in flight
 	resp     resources.TwoPCResponse
 	respGob  []byte
 	err      error
@@ -473,9 +480,11 @@ func (w *world) enabled() (free, faults []move) {
 
 func (w *world) enabledAll() (free, faults []move) {
 	for _, m := range w.pend {
-		if m.stage == 0 && w.cfg.Atomic && !m.dup {
+		if m.stage == 0 && w.cfg.SplitReceive {
+			free = append(free, move{kind: "filter", m: m})
+		} else if (m.stage == 0 || m.stage == 5) && w.cfg.Atomic && !m.dup {
 			free = append(free, move{kind: "rpc", m: m})
-		} else if m.stage == 0 {
+		} else if m.stage == 0 || m.stage == 5 {
 			free = append(free, move{kind: "recv", m: m})
 		} else {
 			free = append(free, move{kind: "reply", m: m})
@@ -558,6 +567,9 @@ func (w *world) apply(mv move) int {
 	}
 	aff := -2
 	switch mv.kind {
+	case "filter":
+		aff = mv.m.to
+		w.filterHalf(mv.m)
 	case "recv":
 		w.process(mv.m)
 		aff = mv.m.to
@@ -689,6 +701,28 @@ func (w *world) noteProcessed(from, to int, req *resources.TwoPCRequest, before,
 	}
 }
 
+// filterHalf runs the first critical section of receiveFiltered for m at its receiver.
+func (w *world) filterHalf(m *msg) {
+	before := w.dump(m.to)
+	var resp resources.TwoPCResponse
+	if !resources.VerifTwoPCFilterHalf(w.nodes[m.to].rcvr, m.req, &resp) {
+		m.stage = 5
+		w.logf("   n%d: passed the stale-message filter, not yet handled", m.to)
+		return
+	}
+	after := w.dump(m.to)
+	w.noteProcessed(m.from, m.to, &m.req, &before, &after)
+	w.logf("   n%d: ignored as older than a message already seen from n%d", m.to, m.from)
+	if m.dup {
+		w.removePend(m)
+		return
+	}
+	m.stage, m.resp, m.err = 1, resp, nil
+	if w.cfg.Atomic {
+		w.deliverReply(m)
+	}
+}
+
 // process hands a request to the receiving node exactly as the transport would.
 func (w *world) process(m *msg) {
 	to := w.nodes[m.to]
@@ -710,6 +744,11 @@ func (w *world) process(m *msg) {
 			// the repository's in-process transport: LocalReplicaHandle.Send -> receiveInternal
 			err = <-resources.VerifTwoPCLocalHandle(to.rcvr).Send(arg, &resp)
 		case "direct":
+			if m.stage == 5 {
+				// second critical section of receiveFiltered; the first ran in an earlier step
+				err = resources.VerifTwoPCInternalHalf(to.rcvr, arg, &resp)
+				break
+			}
 			// a custom in-process transport can only reach the exported RPC entry point
 			err = to.rcvr.Receive(arg, &resp)
 		case "gob":
@@ -1519,7 +1558,10 @@ func (w *world) msgSeg(k *keyCtx, m *msg, withTo bool) string {
 	if m.dupped {
 		b = append(b, ".dd"...)
 	}
-	if m.req.RequestType == resources.PreCommit && m.stage == 0 {
+	if m.stage == 5 {
+		b = append(b, ".F"...)
+	}
+	if m.req.RequestType == resources.PreCommit && m.stage != 1 {
 		// if the receiver accepts it (late), the oracle's diagnosis depends on what already happened to the
 		// Commit / Aborts of that proposal on this link
 		ri := w.relInfoOf(m.from, m.req.SenderTime, m.to, w.seq)
